@@ -106,9 +106,9 @@ func mkInt(n int64) IntV {
 	}
 	return IntV{T: strconv.FormatInt(n, 10), C: true, N: n}
 }
-func symInt(t string) IntV   { return IntV{T: t} }
-func mkBool(b bool) BoolV    { return BoolV{strconv.FormatBool(b)} }
-func litStr(s string) StrV   { return StrV{K: SLit, S: s} }
+func symInt(t string) IntV { return IntV{T: t} }
+func mkBool(b bool) BoolV  { return BoolV{strconv.FormatBool(b)} }
+func litStr(s string) StrV { return StrV{K: SLit, S: s} }
 func opaqueStr(t string) StrV {
 	if len(t) >= 2 && t[0] == '"' && t[len(t)-1] == '"' && !strings.Contains(t[1:len(t)-1], `"`) && !strings.Contains(t, `\u`) {
 		return litStr(t[1 : len(t)-1])
